@@ -90,27 +90,53 @@ def py_line_end(content, o):
     return i if i != -1 else len(content)
 
 
-def impl_tfl_all(content, cons, offsets=None):
-    """ try_find_line at every offset on the real seeker """
+def impl_tfl_all(content, cons, offsets=None, order_seed=None):
+    """
+    try_find_line at every offset on ONE real seeker object.  The lookups are made in an
+    order chosen from `order_seed` (ascending, descending, shuffled, or ascending followed
+    by a descending second pass for small files): what a lookup returns must not depend on
+    the lookups made before it.  Returns rows indexed like `offsets` (second-pass
+    disagreements are reported in place of the row).
+    """
+    import random as _random
     core.import_searchkit()
     from searchkit.constraints import LogFileDateSinceSeeker
     c = make_constraint(cons)
     with tempfile.NamedTemporaryFile(prefix='vh-', delete=False) as f:
         f.write(content)
         path = f.name
-    rows = []
+    offs = list(offsets if offsets is not None else range(len(content) + 1))
+    rng = _random.Random(order_seed if order_seed is not None else 0)
+    mode = rng.choice(['asc', 'desc', 'shuffle', 'asc+desc']) if order_seed is not None \
+        else 'asc'
+    if mode == 'asc+desc' and len(offs) > 1600:
+        mode = 'shuffle'
+    seq = list(range(len(offs)))
+    if mode == 'desc':
+        seq.reverse()
+    elif mode == 'shuffle':
+        rng.shuffle(seq)
+    elif mode == 'asc+desc':
+        seq = seq + seq[::-1]
+    rows = [None] * len(offs)
+
+    def lookup(seeker, o):
+        try:
+            l = seeker.try_find_line(o)
+            s, e = l.start_offset, l.end_offset
+            text_ok = l.text == content[py_line_start(content, o):py_line_end(content, o)]
+            return [s, e, secs(l.date), text_ok]
+        except Exception as ex:  # pylint: disable=broad-except
+            return classify(ex)
     try:
         with open(path, 'rb') as fd:
             seeker = LogFileDateSinceSeeker(fd, c)
-            for o in (offsets if offsets is not None else range(len(content) + 1)):
-                try:
-                    l = seeker.try_find_line(o)
-                    s, e = l.start_offset, l.end_offset
-                    text_ok = l.text == content[py_line_start(content, o):
-                                                py_line_end(content, o)]
-                    rows.append([s, e, secs(l.date), text_ok])
-                except Exception as ex:  # pylint: disable=broad-except
-                    rows.append(classify(ex))
+            for k in seq:
+                row = lookup(seeker, offs[k])
+                if rows[k] is None:
+                    rows[k] = row
+                elif rows[k] != row and not isinstance(rows[k], dict):
+                    rows[k] = {'unstable': [rows[k], row]}
     finally:
         os.unlink(path)
     return rows
